@@ -257,6 +257,8 @@ def run(ctx):
 
     # the patch test on a mesh that was used, then moved: the strain operators must be those of the moved geometry
     ctx.attempt(_mesh_motion_rule, ctx, "R1.11")
+    # the patch test of an anisotropic material with tilted axes: stress = (P C P^T) : eps needs the exact change-of-basis matrix
+    ctx.attempt(_c10.pmat_rules, ctx)
     from ..shared import group_loop_leak_rule as _group_loop_leak_rule
 
     ctx.attempt(_group_loop_leak_rule, ctx, "R1.9", scope=lambda f, _s=("EasyFEA.Simulations",): f.module.name.startswith(_s), min_instances=8)
